@@ -16,7 +16,8 @@ Section PerTask.
 
   Lemma verdict_ext c cd E w wr t : force cd = force c -> same_view E w wr t -> verdict cd E w t = verdict c E wr t.
   Proof.
-    intros FE V. unfold verdict. rewrite FE. destruct (force c); auto. symmetry. apply check_loop_ext.
+    intros FE V. unfold verdict. rewrite FE, (preds_exist_ext E w wr t V). destruct (negb (preds_exist E w t)); auto.
+    destruct (force c); auto. symmetry. apply check_loop_ext.
     intros k Hk. apply V. exact Hk.
   Qed.
 
